@@ -235,6 +235,7 @@ pub fn run(ctx: &Ctx) -> i32 {
             run_independent(ctx, &gf, K, T2, rng.next(), &st);
             ctx.eval(1);
         }
+        #[cfg(feature = "full")]
         if i % 50 == 0 {
             raptorq::verif::verif_cache::clear();
         }
